@@ -15,6 +15,7 @@ import (
 	enumspb "go.temporal.io/api/enums/v1"
 	failurepb "go.temporal.io/api/failure/v1"
 	historypb "go.temporal.io/api/history/v1"
+	"go.temporal.io/server/common/codec"
 	"go.temporal.io/server/common/persistence/serialization"
 	"google.golang.org/protobuf/proto"
 	"google.golang.org/protobuf/reflect/protoreflect"
@@ -406,6 +407,7 @@ func canonBlobs(m protoreflect.Message) bool {
 				// deterministic bytes (protobuf map order is random): equal events <=> equal bytes
 				if nb, err := (proto.MarshalOptions{Deterministic: true}).Marshal(&historypb.History{Events: evs}); err == nil {
 					blob.Data = nb
+					blob.EncodingType = enumspb.ENCODING_TYPE_PROTO3 // the comparison is on the decoded events, whatever the wire encoding was
 				}
 			}
 			if fd.IsList() {
@@ -780,6 +782,59 @@ func corruptBlobs(m protoreflect.Message) int {
 				}
 			} else {
 				n += corruptBlobs(v.Message())
+			}
+		}
+		return true
+	})
+	return n
+}
+
+
+// jsonEncodeBlobs re-encodes every event blob inside m as JSON (the other encoding the history serializer reads).
+func jsonEncodeBlobs(m protoreflect.Message) int {
+	n := 0
+	enc := codec.NewJSONPBEncoder()
+	m.Range(func(fd protoreflect.FieldDescriptor, v protoreflect.Value) bool {
+		switch {
+		case fd.IsMap():
+			if fd.MapValue().Message() != nil {
+				v.Map().Range(func(_ protoreflect.MapKey, mv protoreflect.Value) bool {
+					n += jsonEncodeBlobs(mv.Message())
+					return true
+				})
+			}
+		case fd.Message() != nil && fd.Message().FullName() == "temporal.api.common.v1.DataBlob":
+			if nonEventBlobFields[string(fd.FullName())] {
+				return true
+			}
+			fix := func(bm protoreflect.Message) {
+				blob := bm.Interface().(*commonpb.DataBlob)
+				if len(blob.GetData()) == 0 {
+					return
+				}
+				evs, err := evSerializer.DeserializeEvents(blob)
+				if err != nil {
+					return
+				}
+				if b, err := enc.Encode(&historypb.History{Events: evs}); err == nil {
+					blob.Data, blob.EncodingType = b, enumspb.ENCODING_TYPE_JSON
+					n++
+				}
+			}
+			if fd.IsList() {
+				for i := 0; i < v.List().Len(); i++ {
+					fix(v.List().Get(i).Message())
+				}
+			} else {
+				fix(v.Message())
+			}
+		case fd.Message() != nil:
+			if fd.IsList() {
+				for i := 0; i < v.List().Len(); i++ {
+					n += jsonEncodeBlobs(v.List().Get(i).Message())
+				}
+			} else {
+				n += jsonEncodeBlobs(v.Message())
 			}
 		}
 		return true
